@@ -525,7 +525,18 @@ cdef class InterCoefficient(Coefficient):
 
     @classmethod
     def from_PPoly(cls, ppoly, **_):
-        return cls.restore(ppoly.x, np.asarray(ppoly.c, complex))
+        poly = np.asarray(ppoly.c, complex)
+        # The table holds one column per break point (the last one gives the
+        # value used at and after the end of the range): add the expansion of
+        # the last piece around the last break point.
+        a = np.arange(poly.shape[0])
+        a[0] = 1
+        fact = np.cumprod(a) + 0j
+        last = np.array([
+            ppoly(ppoly.x[-1], i) / fact[i]
+            for i in range(poly.shape[0] - 1, -1, -1)
+        ], dtype=complex)
+        return cls.restore(ppoly.x, np.hstack([poly, last[:, None]]))
 
     @classmethod
     def from_Bspline(cls, spline, **_):
